@@ -342,10 +342,29 @@ func (te *TemplateEngine) renderFetchedToDocument(template *Template, templateNa
 
 // renderTemplate 渲染模板
 func (te *TemplateEngine) renderTemplate(template *Template, data *TemplateData) (string, error) {
-	return te.renderTemplateWithOverrides(template, data, nil)
+	// 先沿继承链解析出完整的模板文本（只处理继承与块），再对结果执行一次渲染流程：
+	// 已渲染的父模板输出不会再被子模板的变量/循环/条件处理重复扫描
+	content, err := te.renderTemplateWithOverrides(template, data, nil)
+	if err != nil {
+		return "", err
+	}
+
+	// 渲染变量
+	content = te.renderVariables(content, data.Variables)
+
+	// 渲染循环语句（先处理循环，循环内部会处理条件语句）
+	content = te.renderLoops(content, data.Lists)
+
+	// 渲染条件语句（处理非循环内的条件语句）
+	content = te.renderConditionals(content, data.Conditions)
+
+	// 渲染图片占位符
+	content = te.renderImages(content, data.Images)
+
+	return content, nil
 }
 
-// renderTemplateWithOverrides 渲染模板；overrides 为继承链上更派生的模板对块的重写（块名 -> 内容）。
+// renderTemplateWithOverrides 解析模板的继承与块，得到待渲染的模板文本；overrides 为继承链上更派生的模板对块的重写（块名 -> 内容）。
 // 模板在加载后不再被修改：重写只存在于本次渲染的参数中，因此渲染结果只取决于被渲染的模板本身。
 func (te *TemplateEngine) renderTemplateWithOverrides(template *Template, data *TemplateData, overrides map[string]string) (string, error) {
 	var content string
@@ -377,18 +396,6 @@ func (te *TemplateEngine) renderTemplateWithOverrides(template *Template, data *
 
 	// 渲染块定义
 	content = te.renderBlocks(content, template, data, overrides)
-
-	// 渲染变量
-	content = te.renderVariables(content, data.Variables)
-
-	// 渲染循环语句（先处理循环，循环内部会处理条件语句）
-	content = te.renderLoops(content, data.Lists)
-
-	// 渲染条件语句（处理非循环内的条件语句）
-	content = te.renderConditionals(content, data.Conditions)
-
-	// 渲染图片占位符
-	content = te.renderImages(content, data.Images)
 
 	return content, nil
 }
